@@ -940,6 +940,21 @@ class Evaluator:
             except (TypeError, ValueError, IndexError) as e:
                 raise Raised("builtins." + type(e).__name__)
             return list(r) if name in ("splitlines",) else r
+        if isinstance(base, (list, tuple)) and len(args) == 1 and \
+                name in ("remove", "index", "count") and (
+                    isinstance(args[0], Abs) or
+                    any(isinstance(x, Abs) for x in base)):
+            # equality of abstract objects is their class's __eq__ (lines
+            # compare by content), as for the `in` operator
+            hits = [i for i, x in enumerate(base) if self._eq(x, args[0])]
+            if name == "count":
+                return len(hits)
+            if not hits:
+                raise Raised("builtins.ValueError")
+            if name == "index":
+                return hits[0]
+            del base[hits[0]]
+            return None
         if isinstance(base, (list, tuple, set, frozenset, dict, bytes)) and \
                 hasattr(type(base), name) and not name.startswith("_") and \
                 name not in ("sort",) and \
